@@ -89,6 +89,28 @@ def run(ctx):
                 for roles in ([x], [x.upper()], ['other', x.swapcase()], ['other'], []):
                     cases.append(ec.enforce_case([('p:x', tree)], {'by': 'name', 'name': 'p:x'}, {}, {'roles': roles}, dflt=('opt', None), want='c04',
                                                  enforcer=e, extra={'_list_value': value}))
+    # any whitespace around the rule text (an indented YAML scalar, a trailing newline) is not part of the check
+    for x in ['Admin', 'admin', 'Ädmin', '%(r)s']:
+        leaf = ev.role(ev.ph('r')) if x.startswith('%') else ev.role(x)
+        for pre, post in ((' ', ''), ('\t', ''), ('\n  ', '\n'), ('', '  '), ('  ', ' \t')):
+            for body in ('role:' + x, 'not role:' + x, '(role:' + x + ')'):
+                text = pre + body + post
+                tree = ev.Not(leaf) if body.startswith('not') else leaf
+                for route in ('rules_obj', 'main_file'):
+                    e = ev.make_enforcer({'p:x': text}, ('opt', None), via=route)
+                    for roles in (['admin'], ['ADMIN'], ['ädmin'], ['other'], []):
+                        cases.append(ec.enforce_case([('p:x', tree)], {'by': 'name', 'name': 'p:x'}, {'r': 'ADMIN'}, {'roles': roles}, dflt=('opt', None),
+                                                     want='c04', enforcer=e, extra={'_texts': {'p:x': text}, '_via': route}))
+    # a list-syntax rule with an empty alternative next to the role check: whatever an empty alternative means,
+    # credentials that hold the role are allowed
+    for x in ['Admin', 'ops']:
+        for value in ([[], ['role:' + x]], ['', 'role:' + x], [['role:' + x], []], [[], [], ['role:zz'], ['role:' + x]], ['role:zz', '', ['role:' + x]]):
+            for route in ('from_dict', 'load'):
+                e = ev.make_enforcer({}, ('opt', None))
+                e.set_rules(_policy.Rules.from_dict({'p:x': value}) if route == 'from_dict' else _policy.Rules.load(json.dumps({'p:x': value})), use_conf=False)
+                for roles in ([x], [x.upper(), 'other'], [x.swapcase()]):
+                    cases.append(ec.enforce_case([('p:x', ev.role(x))], {'by': 'name', 'name': 'p:x'}, {}, {'roles': roles}, dflt=('opt', None), want='c04',
+                                                 enforcer=e, extra={'_list_value': value}))
     n_exh = len(cases)
     # random: role lists, placeholders, missing keys, missing roles
     alph = ALPH_ASCII + ALPH_WIDE
